@@ -481,7 +481,7 @@ class Prop:
                 tags["add1d_after_reduction"] = True
             dep = ops & {"dep_sub", "dep_add", "dep_mul"}
             if dep:
-                tags["dep_scalar"] = sorted(dep)[0]
+                tags["dep_scalar"] = True; tags["dep_op"] = sorted(dep)[0][4:]
             c = {"env": env, "expr": expr, "grad": mask, "api": api, "ctor": bool(ctor), "tags": tags}
             if opt is not None:
                 c["optimize"] = opt
